@@ -13,8 +13,8 @@ import (
 	"context"
 	"encoding/json"
 	"fmt"
-	"os"
 	"math/big"
+	"os"
 	"path/filepath"
 	"regexp"
 	"strconv"
